@@ -137,7 +137,8 @@ def body(chk, exe, scratch, proof_ok, detail):
             what = "C18 [signature %s]: scenario %s, allocation %d failing (%s): the process crashed in call [%s]: %s\nmodel: %s" % (
                 sig, name, k, mode, at.group(1) if at else "?", at.group(2) if at else c, m[:200])
             if sig is None:
-                sig = "%s@scripted-syscall-failure" % resfam.func_of(at.group(1) if at else "?")
+                armed = " trace=" not in c and re.search(r"sysfail", "".join(base_trace.get(name, "")))
+                sig = "%s@%s" % (resfam.func_of(at.group(1) if at else "?"), "scripted-syscall-failure" if armed else "no-failure")
                 what = what.replace("[signature None]", "[signature %s]" % sig)
             report(sig, op, what)
             chk.bump("crash")
